@@ -138,7 +138,12 @@ def check(ctx: Ctx) -> str:
     ctx.rule("R3", "FileSystemBytecodeCache.dump_bytecode: temp file in the target directory, os.replace onto the final name, remove_silent on every exceptional path")
     db = repo.func("bccache:FileSystemBytecodeCache.dump_bytecode")
     tf = [c for c in astq.calls(db.node) if astq.callee(c).endswith("NamedTemporaryFile")]
-    ctx.need(len(tf) == 1, "dump_bytecode no longer creates a NamedTemporaryFile")
+    if len(tf) != 1:
+        # no temp file at all: the entry is (over)written in place
+        opens = [ast.unparse(c)[:60] for c in astq.calls(db.node) if astq.callee(c) in ("open", "os.open", "os.fdopen", "io.open")]
+        ctx.check(False, "tmp:present", "bccache:FileSystemBytecodeCache.dump_bytecode", "cache entry written in place",
+                  f"dump_bytecode writes the entry without a temporary file + os.replace ({opens}): a write interrupted after the header leaves a file whose magic and (new) source checksum are valid but whose code is missing or - when the old entry is overlaid without truncation - belongs to the previous source, and the next load accepts it", db.loc())
+        return __doc__ or ""
     # the final file name is the local bound to self._get_cache_filename(bucket) (any name);
     # locals that only name os.path.dirname / basename of it are looked through
     fin = [a for a in ast.walk(db.node) if isinstance(a, ast.Assign) and ast.unparse(a.value) == "self._get_cache_filename(bucket)" and isinstance(a.targets[0], ast.Name)]
